@@ -2,7 +2,6 @@
    branch and subpath, Vcs::from_field / to_field. *)
 From V.model Require Import Base CodecStr Vcs.
 From V.proofs Require Import BaseP CodecStrP.
-Set Default Timeout 60.
 
 Local Open Scope N_scope.
 
